@@ -274,6 +274,12 @@ def resizeRef (s : AState) (n i : Nat) : Option (Res AState) :=
   | some x => s.resize n x
   | none => none
 
+/-- `append(&a[i], n)`: the pointer overload `append(const T* values, usize size)` with `values` pointing INTO the array
+    (`i + n ≤ size`; anything else reads behind `_end`): `values = reserve(oldSize + size, values)` follows the pointer
+    into the (possibly new) storage, then `n` elements are copy-constructed from there -/
+def appendSub (s : AState) (i n : Nat) : Option (Res AState) :=
+  if i + n ≤ s.size then s.appendAll ((s.elems.drop i).take n) else none
+
 /-- `~Array()`: one `delete[]` if storage exists -/
 def dtorFrees (s : AState) : Nat := if s.data.isSome then 1 else 0
 
@@ -316,7 +322,7 @@ inductive Op where
   -- arguments that are the container itself or a reference into it
   | lappendself (v : Nat) | lprependself (v : Nat) | linsertself (v : Nat) (pos : Nat) | lassignself (v : Nat)
   | aappendself (v : Nat) | aappendref (v : Nat) (i : Nat) | aresizeref (v : Nat) (n : Nat) (i : Nat)
-  | aassignself (v : Nat)
+  | aassignself (v : Nat) | aappendsub (v : Nat) (i : Nat) (n : Nat)
 
 namespace State
 
@@ -432,6 +438,7 @@ def step (s : State) (op : Op) : Option (Res State) :=
   | .aappendref v i => if ok v then liftA s v ((s.getA v).appendRef i) else none
   | .aresizeref v n i => if ok v then liftA s v ((s.getA v).resizeRef n i) else none
   | .aassignself v => if ok v then some { st := s } else none                 -- `if(this == &other) return *this;`
+  | .aappendsub v i n => if ok v then liftA s v ((s.getA v).appendSub i n) else none
   | .aeq v w =>
     -- `operator==`: `if(size() != other.size()) return false;` then element-wise comparison
     if ok v ∧ ok w then
